@@ -9,7 +9,7 @@
    only for granted scopes.  Opaque access tokens decrypt (with the provider key
    only) to the stored token id and subject, and expires_in/scope in the
    response agree with what was stored." *)
-From OIDC Require Export Lib Base64 Cipher C02_Jws C01_Verifier C02_Verifiers C06_Token.
+From OIDC Require Export Lib Base64 Cipher C02_Jws C01_Verifier C02_Verifiers C06_Token C06_Grant.
 
 (* ---- oracle tables filled by the harness with the real functions ---- *)
 Definition table := list (list nat * list nat).            (* AES under the provider key *)
@@ -51,7 +51,26 @@ Record case := mkCase {
   cs_aes : table
 }.
 
-Inductive input := ICase (c : case).
+(* the case with the request's scopes replaced *)
+Definition with_scopes (c : case) (s : list string) : case :=
+  let rq := cs_req c in
+  mkCase (cs_router c) (cs_issuer c) (cs_flow c) (cs_client c) (cs_key c) (cs_key2 c) (cs_rot c)
+         (cs_keys c) (cs_user c)
+         (mkReq (rq_sub rq) (rq_aud rq) s (rq_nonce rq) (rq_acr rq) (rq_amr rq) (rq_auth_time rq) (rq_actor rq))
+         (cs_state c) (cs_ids c) (cs_ent c) (cs_now0 c) (cs_now1 c) (cs_vnow c) (cs_verifier c)
+         (cs_at_algs c) (cs_hashes c) (cs_aes c).
+
+(* ICase: one token response; the request (subject, scopes, ...) is given as the storage hands
+   it to the framework.
+   IRefreshed: a refresh_token grant at the end of a HISTORY of requests on one grant: g0 = the
+   scopes of the authorization the refresh token comes from, [earlier] = the refresh requests
+   made on it before (accepted ones rotate the token and the next request presents the new
+   one; refused ones - scopes beyond the grant, another client - leave it), [requested] = the
+   scope parameter of the request under test.  rq_scopes of [c] is not used: the scopes the
+   tokens may carry follow from the history. *)
+Inductive input :=
+| ICase (c : case)
+| IRefreshed (g0 : list string) (earlier : list earlier_req) (requested : list string) (c : case).
 
 Inductive verdict := VAccept | VReject (e : err).
 
@@ -146,9 +165,17 @@ Definition model_response (c : case) : response :=
     (cs_issuer c) (cs_flow c) (cs_client c) (case_key_at c) (case_key_id c) (cs_user c) (cs_req c) (cs_state c)
     (cs_ids c) (cs_ent c) (cs_now0 c).
 
+Definition model_case (c : case) : observed :=
+  let r := model_response c in OResp r (model_checks c r).
+
 Definition model (i : input) : observed :=
   match i with
-  | ICase c => let r := model_response c in OResp r (model_checks c r)
+  | ICase c => model_case c
+  | IRefreshed g0 earlier requested c =>
+      match refresh_scopes g0 earlier requested with
+      | Some s => model_case (with_scopes c s)
+      | None => ONoTokens 400          (* invalid_scope *)
+      end
   end.
 
 (* ---------------- the property, from its text ---------------- *)
@@ -254,8 +281,12 @@ Definition id_token_ok (c : case) (r : response) (k : checks) (j : jws_desc) (ic
   && (if is_exchange (cs_flow c)
       then Z.leb (sec (cs_now0 c) - Z.abs (the_skew c)) (i_auth_time ic)
            && Z.leb (i_auth_time ic) (sec (cs_now1 c) + Z.abs (the_skew c))
-      else Z.eqb (rq_auth_time rq) 0
-           || zabs_le (i_auth_time ic - rq_auth_time rq) (Z.abs (the_skew c)))
+      else if Z.eqb (rq_auth_time rq) 0
+           (* the request records no authentication (Go's zero time): the token asserts none
+              (auth_time absent), or at most that zero time moved by the skew - never a time of
+              the provider's own making, such as the time of issuance *)
+           then Z.eqb (i_auth_time ic) 0 || zabs_le (i_auth_time ic - zero_unix) (Z.abs (the_skew c))
+           else zabs_le (i_auth_time ic - rq_auth_time rq) (Z.abs (the_skew c)))
   (* iat at issuance (up to the skew), exp - iat = lifetime widened by the skew on both sides *)
   && Z.leb (sec (cs_now0 c) - the_skew c) (i_iat ic) && Z.leb (i_iat ic) (sec (cs_now1 c) - the_skew c)
   && zabs_le (i_exp ic - i_iat ic - (cl_id_life (cs_client c) + 2 * the_skew c)) 1
@@ -332,6 +363,8 @@ Definition fields_ok (c : case) (r : response) (k : checks) : bool :=
           Z.leb (e + the_skew c - sec (cs_now1 c) - 1) (r_expires_in r)
           && Z.leb (r_expires_in r) (e + the_skew c - sec (cs_now0 c))
           && strs_eqb (r_scope r) scopes
+          (* ... and what was stored (and is announced) stays within what the request was granted *)
+          && subset_of scopes (rq_scopes (cs_req c))
       | None => false
       end
   end
@@ -341,13 +374,46 @@ Definition fields_ok (c : case) (r : response) (k : checks) : bool :=
 Definition keys_served (c : case) (k : checks) : bool :=
   forallb (fun x => existsb (jwk_eqb x) (k_keys k)) (cs_keys c).
 
+Definition spec_case (c : case) (r : response) (k : checks) : bool :=
+  keys_served c k
+  && match r_id r with Some (j, ic) => id_token_ok c r k j ic | None => true end
+  && access_ok c r k
+  && fields_ok c r k.
+
+(* "granted scopes" at the end of a history of refresh requests (RFC 6749 section 6: the
+   requested scope must not include any scope not originally granted, and if omitted is the
+   scope of the grant): the refresh token presented now stands for the authorization's scopes
+   g0, narrowed by those earlier requests that the grant's own client made WITHIN what the
+   token stood for at that time (the rotated token stands for the narrowed scopes).  A request
+   that was refused - by another client, or asking for a scope beyond the grant - counts for
+   nothing, whatever it asked for. *)
+Fixpoint standing_grant (g : list string) (earlier : list earlier_req) : list string :=
+  match earlier with
+  | [] => g
+  | e :: rest =>
+      standing_grant
+        (match e_scopes e with
+         | [] => g
+         | asked => if e_owner e && subset_of asked g then asked else g
+         end) rest
+  end.
+
+Definition granted_now (g0 : list string) (earlier : list earlier_req) (requested : list string)
+  : option (list string) :=
+  let g := standing_grant g0 earlier in
+  match requested with
+  | [] => Some g
+  | _ => if subset_of requested g then Some requested else None
+  end.
+
 Definition spec (i : input) (o : observed) : bool :=
   match i, o with
-  | ICase c, OResp r k =>
-      keys_served c k
-      && match r_id r with Some (j, ic) => id_token_ok c r k j ic | None => true end
-      && access_ok c r k
-      && fields_ok c r k
+  | ICase c, OResp r k => spec_case c r k
+  | IRefreshed g0 earlier requested c, OResp r k =>
+      match granted_now g0 earlier requested with
+      | Some s => spec_case (with_scopes c s) r k
+      | None => false               (* tokens for a request that asks beyond the grant *)
+      end
   | _, ONoTokens _ => true          (* nothing was issued *)
   | _, OPanic => false
   end.
@@ -436,9 +502,13 @@ Definition flow_index (f : flow) : nat :=
   | FExchange RAccess => 8 | FExchange RRefresh => 9 | FExchange RIDTok => 10
   end.
 
+Definition case_of (i : input) : case :=
+  match i with ICase c => c | IRefreshed _ _ _ c => c end.
+
 Definition path (i : input) (o : observed) : nat :=
   match i, o with
-  | ICase c, OResp r k =>
+  | _, OResp r k =>
+      let c := case_of i in
       flow_index (cs_flow c) * 64
       + (match r_access r with ANone => 0 | AOpaque _ => 1 | AJwt _ _ _ => 2 end) * 8
       + (if r_refresh r =s "" then 0 else 4)
